@@ -197,7 +197,7 @@ func parseNBResponse(b []byte) (nbResponse, error) {
 		}
 		l := int(b[off])
 		off++
-		if l < 32 || off+l+10 > len(b) {
+		if l != 32 || off+l+1+10 > len(b) {
 			return r, fmt.Errorf("answer %d: bad name length %d", i, l)
 		}
 		raw := make([]byte, 16)
@@ -209,6 +209,24 @@ func parseNBResponse(b []byte) (nbResponse, error) {
 			raw[k] = hi<<4 | lo
 		}
 		off += l
+		// RFC 1002 wire form: the scope labels follow, closed by the root label
+		for {
+			if off >= len(b) {
+				return r, fmt.Errorf("answer %d: unterminated name", i)
+			}
+			ll := int(b[off])
+			off++
+			if ll == 0 {
+				break
+			}
+			if ll > 63 || off+ll > len(b) {
+				return r, fmt.Errorf("answer %d: bad scope label", i)
+			}
+			off += ll
+		}
+		if off+10 > len(b) {
+			return r, fmt.Errorf("answer %d: truncated", i)
+		}
 		a := nbAnswer{name: strings.TrimRight(string(raw), " "), typ: binary.BigEndian.Uint16(b[off:]), class: binary.BigEndian.Uint16(b[off+2:])}
 		rdl := int(binary.BigEndian.Uint16(b[off+8:]))
 		off += 10
